@@ -1,5 +1,6 @@
 SPECIFICATION Spec
 CONSTANTS
+  DeclaredFirst = TRUE
   RkIntHonoursStyle = TRUE
   FmtIds = {14, 50, 163, 164, 400}
   XfOnlyIds = {0, 22, 46}
